@@ -2409,3 +2409,49 @@ def rule_empty_number_exit(col, facts):
                 col.check(R, "%s:empty-ok" % name, not missing,
                           "the empty number is accepted as zero without having found %s false: with required_exponent_notation (and digits not required) `` / `-` are accepted while `.`, `0`, `1` are rejected with MissingExponent" % ", ".join(missing), f.loc(st[3]))
     col.floor(R, "empty-number exits of the float entry points", n, 4)
+
+
+def rule_incremented_digit_in_range(col, facts):
+    """GRD-digit: `digit_to_char_const(d + 1, radix)` is a digit only if d + 1 < radix.  Wherever the writers
+    increment a decoded digit (carry propagation), the increment must be control-dependent on a test that the
+    digit is not the largest one: `d + 1 < radix`, `d < radix - 1`, or the character compared with the largest
+    digit's character.  The generic-radix writer's back-trace lacked it and wrote `3` in radix 3 (`1.203^-12`),
+    `[` in radix 36."""
+    R = "GRD-digit"
+    n = 0
+    for f in facts.all_fns():
+        if f.crate not in ("lexical_write_float",):
+            continue
+        for bb, c, a, d, t in f.calls():
+            if last_seg(callee_name(c)) not in ("digit_to_char_const", "digit_to_char"):
+                continue
+            e = strip_casts(op_expr(f, a[0]))
+            if not (e[0] == "bin" and e[1] == "Add" and strip_casts(e[3]) == ("k", 1)):
+                continue
+            n += 1
+            dig = strip_casts(e[2])
+            ok = False
+            for _d, x, p in path_conditions(f, bb):
+                x = strip_casts(simplify_proj(x))
+                if x[0] != "bin" or x[1] not in ("Lt", "Le", "Gt", "Ge", "Ne") or not isinstance(p, bool):
+                    continue
+                l, r = strip_casts(x[2]), strip_casts(x[3])
+                op = x[1]
+                if not p:
+                    op = {"Lt": "Ge", "Ge": "Lt", "Gt": "Le", "Le": "Gt", "Ne": "Eq"}[op]
+                sl, sr = show(l), show(r)
+                mentions_radix = lambda z: "radix" in show(z).lower() or "max" in show(z).lower()
+                # d + 1 < radix   |  d < radix - 1  | radix > d + 1
+                if op == "Lt" and (l == e or l == dig) and mentions_radix(r):
+                    ok = True
+                if op == "Gt" and (r == e or r == dig) and mentions_radix(l):
+                    ok = True
+                # the character itself below the largest digit's character
+                if op == "Lt" and any(last_seg(c_[1]) == "digit_to_char_const" for c_ in expr_calls(r)) and show(l) in show(dig):
+                    ok = True
+                if op == "Ne" and (l == dig or r == dig) and (mentions_radix(l) or mentions_radix(r)):
+                    ok = True
+            key = f.short.replace(WF, "") if f.kind != "Closure" else f.closure_of.replace(WF, "")
+            col.check(R, "%s:digit+1" % key, ok,
+                      "`%s` is turned into a digit character without having been found below the radix: the largest digit is incremented to a character that is not a digit (radix 3: `3`, radix 36: `[`)" % show(e)[:90], f.loc(f.blocks[bb]["ts"]))
+    col.floor(R, "digit increments in the float writers", n, 1 if "radix" not in facts.config else 2)
